@@ -72,7 +72,8 @@ def _run(ctx):
                 "by the real decoder in a child process; same operators on large values; 644 (damaged archive field, "
                 "operation) pairs plus extras on a real RRDP archive through RrdpArchive / utils::archive::Archive; "
                 "validation runs and Store::status over a cache with damaged stored-point files / status.bin; oracle: no "
-                "panic, abort, hang (10 s; 5 s for archive operations in quick), no single allocation > 64 MiB + 16 x input; "
+                "panic, abort, hang (10 s of CPU time of the child; 4 s for archive operations in quick), no single allocation > "
+                "64 MiB + 16 x input; "
                 "non-trivial = case where the decoder did not return a value, distinct by (record, classes, corruption)")
     rc = lib.finish(ctx, r, rule, exhaustive=True)
     if rc != 0:
